@@ -203,6 +203,13 @@ func typedTargeted(repU *Report, wU *CaseWriter, r *rand.Rand) {
 		pair{reflect.TypeOf([0]int{}), []sb.Token{tokK(sb.KindArray)}},
 		pair{reflect.TypeOf(MyBytes(nil)), []sb.Token{{Kind: sb.KindBytes, Value: []byte("ab")}}},
 		pair{reflect.TypeOf([]MyInt8{}), []sb.Token{{Kind: sb.KindBytes, Value: []byte("ab")}}},
+		pair{reflect.TypeOf([]Level{}), []sb.Token{{Kind: sb.KindBytes, Value: []byte("ab")}}},
+		pair{reflect.TypeOf([3]Level{}), []sb.Token{{Kind: sb.KindBytes, Value: []byte("abc")}}},
+		pair{reflect.TypeOf([3]Level{}), []sb.Token{{Kind: sb.KindBytes, Value: []byte("abcde")}}},
+		pair{reflect.TypeOf(WithLevels{}), obj(tokS("Levels"), sb.Token{Kind: sb.KindBytes, Value: []byte("abc")})},
+		pair{reflect.TypeOf(WithLevels{}), obj(tokS("Slice"), sb.Token{Kind: sb.KindBytes, Value: []byte("ab")}, tokS("Raw"), sb.Token{Kind: sb.KindBytes, Value: []byte("abc")})},
+		pair{reflect.TypeOf([]MyUint8{}), []sb.Token{{Kind: sb.KindBytes, Value: []byte{}}}},
+		pair{reflect.TypeOf(map[string][2]Level{}), mm(tokS("k"), sb.Token{Kind: sb.KindBytes, Value: []byte("ab")})},
 	)
 	// bytes-typed map keys of every length around the sizes an implementation might special-case
 	for _, l := range []int{0, 1, 2, 7, 8, 9, 15, 16, 17, 19, 20, 21, 24, 31, 32, 33, 40, 64, 65} {
